@@ -90,6 +90,7 @@ class Harness:
         self.text = None          # harness source text (for generated files)
         self.weave = None         # repo-relative source file it is woven into
         self.props = []
+        self.prop_tier = {}
         self.tier = "quick"
         self.timeout = 600
         self.mem = 8
@@ -176,8 +177,13 @@ def parse_harness_text(path, text):
                 h.file = path
                 h.text = text
                 h.weave = weave
-                h.props = " ".join(pending.get("props", [])).split()
                 h.tier = (pending.get("tier", ["quick"])[0] or "quick")
+                # `@props C09 C06:thorough` - a per-property tier overrides the harness tier
+                h.props, h.prop_tier = [], {}
+                for item in " ".join(pending.get("props", [])).split():
+                    name, _, t = item.partition(":")
+                    h.props.append(name)
+                    h.prop_tier[name] = t or h.tier
                 h.timeout = int(pending.get("timeout", ["600"])[0])
                 h.mem = int(pending.get("mem", ["8"])[0])
                 h.fns = pending.get("fns", [])
@@ -412,6 +418,10 @@ def classify(h, res, jpath, logtext, rc, timed_out):
     if timed_out:
         res.reason = "time-out after %ds" % h.timeout
         return
+    m139 = re.search(r"CBMC failed with status (\d+)", logtext)
+    if m139 and not os.path.exists(jpath):
+        res.reason = "CBMC crashed (status %s)" % m139.group(1)
+        return
     if re.search(r"error: internal compiler error|thread 'rustc' panicked|Kani unexpectedly panicked", logtext):
         res.reason = "kani-compiler internal error"
         return
@@ -438,7 +448,7 @@ def classify(h, res, jpath, logtext, rc, timed_out):
     r = mine[0]
     for c in data.get("cbmc", []):
         if c.get("harness_id", "").endswith("::" + h.name):
-            res.stats = c.get("cbmc_stats", {})
+            res.stats = c.get("cbmc_stats") or {}
     res.verification_time = r.get("duration_ms", 0) / 1000.0
     checks = r.get("checks", [])
     res.total = len(checks)
@@ -551,7 +561,11 @@ def run_harness(h, g, root, res):
                                 h.timeout, h.mem, logf)
         res.wall = wall
         logtext = open(logf, errors="replace").read()
-        classify(h, res, jpath, logtext, rc, to)
+        try:
+            classify(h, res, jpath, logtext, rc, to)
+        except Exception as e:  # never let one malformed result take the whole check down
+            res.status = "inconclusive"
+            res.reason = "driver could not classify the result: %r" % (e,)
     finally:
         shutil.rmtree(tdir, ignore_errors=True)
 
@@ -663,7 +677,7 @@ def cmd_check(args):
     os.makedirs(EVID_DIR, exist_ok=True)
 
     allh = discover(tier)
-    hs = [h for h in allh if prop in h.props and (tier == "thorough" or h.tier == "quick")]
+    hs = [h for h in allh if prop in h.props and (tier == "thorough" or h.prop_tier.get(prop, h.tier) == "quick")]
     if only:
         hs = [h for h in hs if h.name in only]
     if not hs:
@@ -835,7 +849,7 @@ def write_evidence(prop, tier, seed, hs, results, glist, violations, known_hits,
             "stubs": h.stubs + [PATCHES[p]["what"] for p in h.config.get("patches", [])] +
                      ["cut:" + c for c in h.config.get("cuts", [])],
             "features": h.config.get("features", "default"),
-            "tier": h.tier,
+            "tier": h.prop_tier.get(prop, h.tier),
             "verdict": res.status,
             "reason": res.reason,
             "cbmc_checks": res.total,
@@ -896,8 +910,8 @@ def cmd_list(args):
     for h in hs:
         if args and args[0] not in h.props:
             continue
-        print("%-36s %-12s %-8s t=%-5d m=%-3d %s  [%s]" % (
-            h.name, ",".join(h.props), h.tier, h.timeout, h.mem, h.weave, h.config_key))
+        print("%-36s %-26s %-8s t=%-5d m=%-3d %s  [%s]" % (
+            h.name, ",".join("%s:%s" % (p, h.prop_tier[p][0]) for p in h.props), h.tier, h.timeout, h.mem, h.weave, h.config_key))
     return 0
 
 
